@@ -13,7 +13,7 @@ ENV = dict(os.environ, CARGO_NET_OFFLINE="true", FJV=FJV)
 NPROC = 16
 
 SWITCHES = ["d_replay_shadow", "d_clear_replay", "d_iter_max", "d_id_reuse",
-            "d_double_close", "d_sizeof_untracked", "d_meta_seqno"]
+            "d_double_close", "d_sizeof_untracked", "d_seqno_journal"]
 
 
 def log(*a):
